@@ -67,7 +67,10 @@ func TestC01(t *testing.T) { replayOr(t, jC01) }
 
 var jC02 = reg(&Judge{
 	Prop: "C02", Test: "TestC02",
-	Profile: Profile{MinProcs: 1, MaxProcs: 3, EdgeProb: 0, Conds: allConds,
+	// process_started edges do not gate anything after the first launch; with an ordered shutdown
+	// they make a dependency wait for its (slow) dependents, so that it can exit by itself while the
+	// shutdown is in progress
+	Profile: Profile{MinProcs: 1, MaxProcs: 3, EdgeProb: 25, Conds: []string{"process_started"}, OrderedPct: 40,
 		Policies: []string{"", "no", "always", "always", "on_failure", "on_failure", "exit_on_failure"}, MaxRestartsMax: 4, BackoffMax: 3,
 		MaxSteps: 10, Codes: []int{0, 1, 2}, APIOps: []string{sc.OpStop, sc.OpStop, sc.OpShutdown},
 		SignalBeh: []string{"", "", "hold"}, BackoffStops: true,
@@ -114,7 +117,7 @@ var jC03 = reg(&Judge{
 		Policies: []string{"", "no", "always", "on_failure"}, MaxRestartsMax: 3, BackoffMax: 2,
 		Probes: true, ReadyLines: true, MaxSteps: 8, Codes: []int{0, 1}, ShutdownStep: true,
 		SignalBeh: []string{"", "", "hold", "ignore"}, StartErr: true,
-		BackoffStops: true, HoldOps: []string{sc.OpShutdown}, APIOps: []string{sc.OpStop, sc.OpStart, sc.OpStart},
+		BackoffStops: true, HoldOps: []string{sc.OpShutdown}, APIOps: []string{sc.OpStop, sc.OpStart, sc.OpStart}, OrderedPct: 35,
 		// disabled processes started by request are outside the start-up plan but not outside the shutdown
 		Disabled: true,
 		Holds:    []string{"run.enter", "run.afterTerminatingCheck", "run.afterWait", "run.afterBackoff", "runProcess.beforeWait", "runProcess.afterWait", "run.loop"}},
@@ -259,7 +262,7 @@ var jC12 = reg(&Judge{
 	Prop: "C12", Test: "TestC12",
 	Profile: Profile{MinProcs: 2, MaxProcs: 7, EdgeProb: 45, Conds: []string{"process_started", "process_started", "process_started", "process_completed"},
 		Policies: []string{"", "no"}, MaxSteps: 4, Codes: []int{0, 1}, ShutdownStep: true, Ordered: true,
-		SignalBeh: []string{"hold", "hold", ""}},
+		SignalBeh: []string{"hold", "hold", ""}, ShutdownCfg: true},
 	Oracle: oracle.C12,
 	Classify: func(h *sc.History, x *oracle.Idx) (bool, []string) {
 		var labels []string
